@@ -23,7 +23,14 @@ C->S : (main) conversions built from option classes: the source dataset is
        destinations are additionally read by a reader written from the format
        text: the .shard files are re-encoded by harness/parsers.parse_shard and
        TLC locates every chunk with ShardFormat!SpecLookup under its
-       compressed Morton code (ConvertSpecReaderDiffers).  Remote sources are
+       compressed Morton code (ConvertSpecReaderDiffers), each scale under its
+       own sharding parameters (destination infos with per-scale different
+       bits / encodings).  Environment class "obstructed destination" (a
+       chunk / shard file path or the last scale's directory is occupied):
+       exit 0 still means everything readable.  The function API
+       convert_chunks(src, dst, copy_info=True) is also called several times
+       in ONE interpreter (unsharded and sharded sources, both orders).
+       Remote sources are
        served by a loopback server, plain and sharded multi-scale (scales that
        share shard numbers and chunk identifiers).
 """
@@ -72,7 +79,11 @@ def conversion_classes(ctx):
                 "kind": None, "triple": None, "shard_enc": None, "shard_index_enc": None,
                 "slices": None, "rgb": False, "slice_format": "png",   # source built from a slice stack
                 "rechunk": "-",     # source re-tiled with further chunk sizes ("cs4", "cs8x4x8,4")
-                "dst_cs": "-"}      # further chunk sizes declared by the destination info
+                "dst_cs": "-",      # further chunk sizes declared by the destination info
+                "obstruct": None,   # environment: "first" (one chunk / shard file path of the first
+                                    # scale is a directory) or "last" (the last scale's directory)
+                "per_scale": None,  # destination: every scale ITS OWN sharding parameters / encodings
+                "link": None}       # conversions run through the function API in one interpreter
         base.update(kw)
         out.append(base)
 
@@ -229,6 +240,34 @@ def conversion_classes(ctx):
     add(src_dtype="uint16", dst_sh="nosh", shard_enc="gzip", **rs)
     add(src_dtype="uint8", dst_dtype="uint32", **dict(rs, triple=[0, 2, 3], shape=[32, 16, 16]))
     add(src_dtype="uint8", remote=True, shape=[16, 16, 16], voxel=[1.0, 1.0, 1.0], tgt=4, dst_dtype="uint16")
+    # 17. ENVIRONMENT "obstructed destination": the path of one chunk file / one shard file of the
+    #     destination (or the last scale's directory) is occupied; exit 0 => everything readable,
+    #     a non-zero status is fine
+    add(src_dtype="uint8", dst_sh="s110", iso=True, obstruct="first")
+    add(src_dtype="uint16", dst_sh="s110", iso=True, obstruct="first", shard_enc="gzip", triple=[0, 2, 0],
+        dst_dtype="uint32")
+    add(src_dtype="uint8", obstruct="first")
+    add(src_dtype="uint8", obstruct="first", dst_type="segmentation", dst_enc="compressed_segmentation",
+        src_type="segmentation", method="stride")
+    add(src_dtype="uint8", dst_sh="s110", iso=True, obstruct="last")
+    add(src_dtype="uint16", obstruct="last")
+    # 18. sharded destinations whose scales carry DIFFERENT sharding parameters and encodings
+    #     (judged by the package reader and by the format reader, each scale under its own spec)
+    ps = dict(dst_sh="s110", iso=True, voxel=[1.0, 1.0, 1.0], tgt=4)
+    add(src_dtype="uint8", shape=[20, 20, 20],
+        per_scale=[[[3, 3, 3], "raw", "raw"], [[1, 1, 0], "gzip", "gzip"], [[0, 0, 0], "raw", "gzip"]], **ps)
+    add(src_dtype="uint16", shape=[20, 12, 16], dst_dtype="uint32",
+        per_scale=[[[0, 1, 0], "gzip", "raw"], [[2, 2, 1], "raw", "raw"], [[1, 0, 2], "gzip", "gzip"]], **ps)
+    add(src_dtype="uint8", shape=[16, 16, 16],
+        per_scale=[[[1, 1, 0], "raw", "raw"], [[1, 1, 0], "gzip", "gzip"]], **ps)      # only the encodings differ
+    add(src_dtype="uint8", shape=[24, 8, 8], src_sh="s110", triple=[1, 1, 0],
+        per_scale=[[[1, 2, 1], "gzip", "gzip"], [[0, 0, 0], "raw", "raw"], [[2, 0, 0], "raw", "gzip"]], **ps)
+    # 19. the function API scripts.convert_chunks.convert_chunks(src, dst, copy_info=True) called
+    #     several times in ONE interpreter (default options), both orders of an unsharded and a
+    #     sharded source; each conversion judged as usual
+    for n, order in enumerate((("nosh", "s110"), ("s110", "nosh"), ("s110", "s110"))):
+        for sh in order:
+            add(src_dtype=["uint8", "uint16", "uint8"][n], src_sh=sh, copy="copy", iso=True, link="inproc%d" % n)
     return out
 
 
@@ -280,6 +319,8 @@ def prog_of(rng, k):
         cmds.append(C("GenScales", "B", src="A", type=k["dst_type"], enc=k["dst_enc"], max=k["dst_max"]))
         if k["dst_dtype"] != "-" or k["dst_sh"] != "keep" or k["dst_bs"] != "-" or k["dst_cs"] != "-":
             cmds.append(C("Edit", "B", type=k["dst_dtype"], sh=k["dst_sh"], enc=k["dst_bs"], m=k["dst_cs"]))
+    if k["obstruct"]:
+        cmds.append(C("Obstruct", "B", m=k["obstruct"]))
     conv = C("Convert", "B", src="A", copy=k["copy"])
     cmds.append(conv)
     if k["repeat"]:
@@ -293,6 +334,7 @@ def prog_of(rng, k):
             "shard_enc": k["shard_enc"] or rng.choice(["gzip", "raw"]),
             "shard_index_enc": k["shard_index_enc"] or k["shard_enc"] or rng.choice(["gzip", "raw"]),
             "shard_triple": k["triple"], "slice_format": k["slice_format"],
+            "shard_per_scale": k["per_scale"], "link": k["link"],
             "docs_shflag": rng.random() < 0.5, "klass": k}
 
 
@@ -333,6 +375,8 @@ def run(ctx):
         "sharded destinations of <= 450 chunks also by the format-level reader (SpecLookup in TLC; the "
         "harness decodes each stored payload with the package's chunk decoder, using its own compressed "
         "Morton code only to know the chunk extent of a stored identifier)",
+        "in-process conversions use the default options of the function API; their exit status is 0 when "
+        "the call returns and 1 when it raises",
         "datasets with several chunk_sizes per scale are produced by a harness action (Rechunk) that "
         "re-tiles a tool-produced dataset through the package's public PrecomputedIO API",
         "TLC 1.8 evaluates the specification faithfully; the driver only records and re-encodes",
@@ -354,7 +398,10 @@ def run(ctx):
     progs = []
     for r in range(reps):
         for k in classes:
-            progs.append(prog_of(ctx.rng, k))
+            p = prog_of(ctx.rng, k)
+            if p["link"] is not None:
+                p["link"] = "%s/%d" % (p["link"], r)      # one interpreter per pair and repetition
+            progs.append(p)
     # --- S->C: exported programs ending in a successful Convert ---------------
     if not ctx.quick:
         from . import c19
